@@ -16,7 +16,7 @@ one() {
     echo "$n: SUITE-FAILS (not a valid refactoring)"; git -C /repo worktree remove --force $W/wt; rm -rf $W; return; fi
   res=""
   for p in $CLAIMED; do
-    out=$(YQCHECK_NESTED=1 /verif/bin/yqcheck -repo $W/wt -verif /verif -property $p -tier quick -evidence $W/ev.json 2>&1); rc=$?
+    out=$(YQCHECK_NESTED=1 ${YQCHECK_BIN:-/verif/bin/yqcheck} -repo $W/wt -verif /verif -property $p -tier quick -evidence $W/ev.json 2>&1); rc=$?
     if [ $rc != 0 ]; then
       why=$(echo "$out" | grep -E -B1 '^VIOLATION' | grep -v '^VIOLATION\|^--' | head -2 | sed 's/^ *//' | cut -c1-220 | tr '\n' ';')
       [ -z "$why" ] && why=$(echo "$out" | grep -E '^(FATAL|UNDECIDED)' | head -2 | cut -c1-220 | tr '\n' ';')
